@@ -18,7 +18,8 @@ theorem iinv_same {base cap tot : Nat} {s : Sys} (hI : IInv base cap tot s) (i :
     (hi : i < s.threads.length) (t' : Thread)
     (hn : t'.n = (s.threads[i]).n) (hf : fOf t' = fOf s.threads[i])
     (hc : committedB cap t' = committedB cap s.threads[i])
-    (ho : overB cap t' = overB cap s.threads[i]) (hs : startOf t' = startOf s.threads[i])
+    (ho : overB cap t' = overB cap s.threads[i])
+    (hs : committedB cap t' = true ∨ overB cap t' = true → startOf t' = startOf s.threads[i])
     (hfe : ∀ a, t'.pc = .fetched a → (s.threads[i]).pc = .fetched a) :
     IInv base cap tot { s with threads := s.threads.set i t' } := by
   obtain ⟨e1, e2, e3, e4⟩ := sums_set cap s.threads i hi t'
@@ -48,15 +49,15 @@ theorem iinv_same {base cap tot : Nat} {s : Sys} (hI : IInv base cap tot s) (i :
     rcases List.mem_or_eq_of_mem_set ht with h | h
     · exact hI.range t h hct
     · subst h
-      rw [hs, hn]
+      rw [hs (Or.inl hct), hn]
       exact hI.range _ hmem (by rw [← hc]; exact hct)
   · intro a b ta tb hab ha hb hca hcb
     rcases getElem?_set_cases _ _ _ _ _ hi ha with ⟨rfl, rfl⟩ | ⟨hai, ha'⟩ <;>
       rcases getElem?_set_cases _ _ _ _ _ hi hb with ⟨rfl, rfl⟩ | ⟨hbi, hb'⟩
     · exact absurd rfl hab
-    · rw [hs, hn]
+    · rw [hs (Or.inl hca), hn]
       exact hI.disj _ b _ tb hab (List.getElem?_eq_getElem hi) hb' (by rw [← hc]; exact hca) hcb
-    · rw [hs, hn]
+    · rw [hs (Or.inl hcb), hn]
       exact hI.disj a _ ta _ hab ha' (List.getElem?_eq_getElem hi) hca (by rw [← hc]; exact hcb)
     · exact hI.disj a b ta tb hab ha' hb' hca hcb
   · show base + sumG cap (s.threads.set i t') ≤ cap
@@ -67,7 +68,7 @@ theorem iinv_same {base cap tot : Nat} {s : Sys} (hI : IInv base cap tot s) (i :
     rcases List.mem_or_eq_of_mem_set ht with h | h
     · exact hI.over_start t h hot
     · subst h
-      rw [hs]
+      rw [hs (Or.inr hot)]
       exact hI.over_start _ hmem (by rw [← ho]; exact hot)
   · show (s.size = base + sumG cap (s.threads.set i t') ∧ sumO cap (s.threads.set i t') = 0) ∨
       (cap < s.size ∧ sumO cap (s.threads.set i t') = 1)
